@@ -49,7 +49,74 @@ def load_mutants(words, seeded_only):
     return out
 
 
+def benign(argv):
+    """False-alarm test: every benign patch (benign/*.patch) is applied to the scratch copy, the
+    repo's tests must pass, and EVERY property's quick check (dbg+rel lanes) must exit 0."""
+    words = [a for a in argv if not a.startswith("--")]
+    index = json.load(open(os.path.join(ROOT, "benign", "index.json")))
+    if words:
+        index = [e for e in index if any(w in e["name"] for w in words)]
+    props = [json.loads(l)["id"] for l in open(os.path.join(ROOT, "properties.jsonl"))]
+    base = os.environ.get("TMPDIR", "/tmp")
+    scratch = tempfile.mkdtemp(prefix="clv-benign-", dir=base)
+    srepo = os.path.join(scratch, "repo")
+    sverif = os.path.join(scratch, "verif")
+    results = []
+    try:
+        sh(["rsync", "-a", "--exclude", "target", REPO + "/", srepo + "/"])
+        os.makedirs(sverif)
+        for f in ["run.py", "known_findings.json", "properties.jsonl"]:
+            shutil.copy(os.path.join(ROOT, f), os.path.join(sverif, f))
+        sh(["rsync", "-a", "--exclude", "target", "--exclude", "target-*", os.path.join(ROOT, "harness") + "/", os.path.join(sverif, "harness") + "/"])
+        ct = os.path.join(sverif, "harness", "Cargo.toml")
+        open(ct, "w").write(open(ct).read().replace('path = "/repo"', 'path = "%s"' % srepo))
+        env = dict(os.environ)
+        env["CARGO_NET_OFFLINE"] = "true"
+        env.pop("RUSTFLAGS", None)
+        env["CARGO_TARGET_DIR"] = os.path.join(scratch, "repo-target")
+        for e in index:
+            entry = dict(name=e["name"], what=e["what"], alarms=[], inconclusive=[])
+            rc, out = sh(["git", "apply", "--whitespace=nowarn", os.path.join(ROOT, "benign", e["name"] + ".patch")], cwd=srepo)
+            if rc != 0:
+                entry["status"] = "patch-does-not-apply"
+                results.append(entry)
+                print("%-44s PATCH DOES NOT APPLY" % e["name"])
+                continue
+            try:
+                rc, out = sh(["cargo", "test", "--offline", "--lib"], cwd=srepo, env=env)
+                entry["passes_repo_tests"] = "test result: ok. 49 passed; 0 failed" in out
+                if not entry["passes_repo_tests"]:
+                    entry["status"] = "fails the repo's own tests"
+                    results.append(entry)
+                    print("%-44s fails the repo's own tests" % e["name"])
+                    continue
+                cenv = dict(os.environ)
+                cenv["CLV_LANES"] = "dbg,rel"
+                t1 = time.time()
+                for p in props:
+                    rc, out = sh([os.path.join(sverif, "run.py"), "check", p, "--tier", "quick"], cwd=sverif, env=cenv)
+                    if rc == 1:
+                        sigs = [l.strip() for l in out.splitlines() if l.strip().startswith("signature:")]
+                        entry["alarms"].append(dict(property=p, signatures=sigs[:4]))
+                    elif rc != 0:
+                        entry["inconclusive"].append(dict(property=p, detail="\n".join([l for l in out.splitlines() if "INCONCLUSIVE" in l][:2])[:400]))
+                entry["seconds"] = round(time.time() - t1, 1)
+                entry["status"] = "silent" if not entry["alarms"] and not entry["inconclusive"] else "ALARM" if entry["alarms"] else "inconclusive"
+                results.append(entry)
+                print("%-44s %-12s %6.1fs %s %s" % (e["name"], entry["status"], entry["seconds"], entry["alarms"], entry["inconclusive"]))
+            finally:
+                sh(["git", "checkout", "--", "."], cwd=srepo)
+    finally:
+        shutil.rmtree(scratch, ignore_errors=True)
+    json.dump(dict(results=results), open(os.path.join(ROOT, "evidence", "benign.json"), "w"), indent=1)
+    bad = [r["name"] for r in results if r.get("status") != "silent"]
+    print("benign: %d patches, not silent: %s" % (len(results), bad))
+    return 0 if not bad else 1
+
+
 def main(argv):
+    if "--benign" in argv:
+        return benign(argv)
     seeded_only = "--seeded" in argv
     words = [a for a in argv if not a.startswith("--")]
     mutants = load_mutants(words, seeded_only)
